@@ -23,7 +23,7 @@ ASSUMPTIONS = ["vector-algebra oracle for angles on the sphere", "proper motions
                "as documented; linearity is judged by second differences over t, 2t, 3t"]
 
 J2000 = 2451545.0
-CENT = [0.0, 0.2884, -0.2884, 0.5, -0.5, 1.0, -1.0, 2.0, -2.0, 5.0, -5.0]
+CENT = [0.0, 0.2884, -0.2884, 0.5, -0.5, 1.0, -1.0, 2.0, -2.0, 5.0, -5.0, 0.01, -0.01]
 CENT_WIDE = CENT + [10.0, -10.0, 20.0, -20.0]
 LONS = [0.0, 41.0, 123.4, 200.0, 359.9]
 LATS = [90.0, 89.9, 89.0, 86.0, 85.1, 85.0, 84.9, 60.0, 30.0, 49.2, 0.0]
@@ -31,7 +31,9 @@ LATS = sorted(set(LATS + [-x for x in LATS]))
 
 
 def bound(tier):
-    return "121 (225) ordered epoch pairs x 110 directions; 125 epoch triples x 20 directions"
+    if tier == "thorough":
+        return "529 ordered pairs of 23 epochs x 360 directions; 125 epoch triples x 20 directions"
+    return "169 (289) ordered epoch pairs x 110 directions; 125 epoch triples x 20 directions"
 
 
 def ep(c):
@@ -133,12 +135,18 @@ def check_pair(case):
     return out
 
 
-def pair_cases():
+def pair_cases(tier="quick"):
     out = []
-    for c0 in CENT_WIDE:
-        for c1 in CENT_WIDE:
-            for lon in LONS:
-                for lat in LATS:
+    cents, lons, lats = CENT_WIDE, LONS, LATS
+    if tier == "thorough":
+        cents = sorted(set(CENT_WIDE + [0.1, -0.1, 1.5, -1.5, 3.0, -3.0, 0.01, -0.01]))
+        lons = [0.0, 41.0, 90.0, 123.4, 179.9, 200.0, 270.0, 315.5, 359.9, 1e-6]
+        lats = sorted(set(LATS + [88.0, -88.0, 85.001, -85.001, 84.999, -84.999, 75.0, -75.0, 45.0, -45.0, 15.0, -15.0,
+                                  1e-6, -1e-6]))
+    for c0 in cents:
+        for c1 in cents:
+            for lon in lons:
+                for lat in lats:
                     out.append({"c0": c0, "c1": c1, "lon": lon, "lat": lat})
     return out
 
@@ -324,7 +332,7 @@ def run_orb(block, ctx):
 
 def clauses(tier):
     return [
-        Clause("epoch_pairs", chunks(pair_cases(), 64), run_pairs,
+        Clause("epoch_pairs", chunks(pair_cases(tier), 64), run_pairs,
                lambda c: [m for _, m, _ in check_pair(c)], floor=5000),
         Clause("epoch_triples", chunks(triple_cases(), 16), run_triples,
                lambda c: [m for _, m, _ in check_triple(c)], floor=500),
